@@ -49,14 +49,13 @@ theorem keepStep_same (l : List Iv) (e : MEvent) (reg : Iv) (acc : List Iv)
   rw [sliceIncl_inrange l _ _ h0 h1 h2]
   split <;> rfl
 
-theorem microStep_none {emap : List (Int × MEvent)} {isoI : List Iv} {i : Int} {acc : List Iv}
-    (h : emap.lookup (-i - 1) = none) : microStep emap isoI i acc = .ok acc := by
-  simp [microStep, h]
+theorem microStep_nil (isoI : List Iv) (i : Int) (acc : List Iv) : microStep [] isoI i acc = .ok acc := by
+  simp [microStep, microAt, getAll]
 
 theorem eventLoop_off {p : CParams} (hp : p.fl = allOff) (emap : List (Int × MEvent)) (rr : Iv) (l : List Iv)
     (isoR : Iv) (isoI : List Iv) (hm : MapWF l.length emap) :
     ∀ (fuel : Nat) (i : Int) (reg : Iv) (acc : List Iv), 0 ≤ i → i ≤ l.length → (l.length - i).toNat + 1 ≤ fuel →
-      eventLoop p emap rr l l isoR isoI fuel i reg acc = .ok (reg, acc ++ l.drop i.toNat) := by
+      eventLoop p emap [] rr l l isoR isoI fuel i reg acc = .ok (reg, acc ++ l.drop i.toNat) := by
   intro fuel
   induction fuel with
   | zero => intro i reg acc _ _ hf; omega
@@ -65,9 +64,7 @@ theorem eventLoop_off {p : CParams} (hp : p.fl = allOff) (emap : List (Int × ME
     rw [eventLoop]
     by_cases hlt : i < (l.length : Int)
     · simp only [hlt, if_true]
-      have hmic : emap.lookup (-i - 1) = none :=
-        lookup_none_of_keys (fun q hq => by have := (hm q hq).2.1; omega)
-      rw [microStep_none hmic]
+      rw [microStep_nil]
       simp only
       cases hlk : emap.lookup i with
       | none =>
@@ -95,7 +92,7 @@ theorem eventLoop_off {p : CParams} (hp : p.fl = allOff) (emap : List (Int × ME
         have e1 : e.read.1.toNat = i.toNat := by omega
         have e2 : (e.read.2 + 1).toNat = i.toNat + (e.read.2 + 1 - e.read.1).toNat := by omega
         rw [e1, e2, List.append_assoc, ← List.drop_drop, List.take_append_drop]
-    · simp only [hlt, if_false]
+    · simp only [hlt, if_false, microStep_nil]
       have : i.toNat = l.length := by omega
       rw [this]; simp
 
@@ -107,38 +104,28 @@ def WellFormedRegions (n : Nat) (evs : List MEvent) : Prop :=
   ∀ e ∈ evs, e.read = undefinedRegion ∨ (e.read.1 = absentPosition ∧ 0 ≤ e.read.2) ∨
     (0 ≤ e.read.1 ∧ e.read.1 ≤ e.read.2 ∧ e.read.2 < n)
 
-theorem addEvent_mem {micro : Bool} {m : List (Int × MEvent)} {e : MEvent} {q : Int × MEvent}
-    (h : q ∈ addEvent micro m e) :
-    q ∈ m ∨ (q.2 = e ∧ e.read ≠ undefinedRegion ∧
-      ((e.read.1 = absentPosition ∧ micro = true ∧ e.etype = corrector_micro_intron_test.1 ∧ q.1 = -e.read.2 - 1) ∨
-       (e.read.1 ≠ absentPosition ∧ q.1 = e.read.1))) := by
+theorem addEvent_mem {m : List (Int × MEvent)} {e : MEvent} {q : Int × MEvent}
+    (h : q ∈ addEvent m e) :
+    q ∈ m ∨ (q.2 = e ∧ e.read ≠ undefinedRegion ∧ e.read.1 ≠ absentPosition ∧ q.1 = e.read.1) := by
   unfold addEvent at h
   split at h
   · exact Or.inl h
   · rename_i hne
     split at h
-    · rename_i hab
-      split at h
-      · rename_i hc
-        cases h with
-        | head => exact Or.inr ⟨rfl, hne, Or.inl ⟨hab, hc.2, hc.1, rfl⟩⟩
-        | tail _ h' => exact Or.inl h'
-      · exact Or.inl h
+    · exact Or.inl h
     · rename_i hab
       cases h with
-      | head => exact Or.inr ⟨rfl, hne, Or.inr ⟨hab, rfl⟩⟩
+      | head => exact Or.inr ⟨rfl, hne, hab, rfl⟩
       | tail _ h' => exact Or.inl h'
 
-theorem foldl_addEvent_mem {micro : Bool} (evs : List MEvent) (m : List (Int × MEvent)) {q : Int × MEvent}
-    (h : q ∈ evs.foldl (addEvent micro) m) :
-    q ∈ m ∨ (q.2 ∈ evs ∧ q.2.read ≠ undefinedRegion ∧
-      ((q.2.read.1 = absentPosition ∧ micro = true ∧ q.2.etype = corrector_micro_intron_test.1 ∧ q.1 = -q.2.read.2 - 1) ∨
-       (q.2.read.1 ≠ absentPosition ∧ q.1 = q.2.read.1))) := by
+theorem foldl_addEvent_mem (evs : List MEvent) (m : List (Int × MEvent)) {q : Int × MEvent}
+    (h : q ∈ evs.foldl addEvent m) :
+    q ∈ m ∨ (q.2 ∈ evs ∧ q.2.read ≠ undefinedRegion ∧ q.2.read.1 ≠ absentPosition ∧ q.1 = q.2.read.1) := by
   induction evs generalizing m with
   | nil => exact Or.inl h
   | cons e t ih =>
     simp only [List.foldl_cons] at h
-    rcases ih (addEvent micro m e) h with h1 | ⟨h1, h2, h3⟩
+    rcases ih (addEvent m e) h with h1 | ⟨h1, h2, h3⟩
     · rcases addEvent_mem h1 with h4 | ⟨h4, h5, h6⟩
       · exact Or.inl h4
       · subst h4
@@ -146,24 +133,38 @@ theorem foldl_addEvent_mem {micro : Bool} (evs : List MEvent) (m : List (Int × 
     · exact Or.inr ⟨List.mem_cons_of_mem _ h1, h2, h3⟩
 
 /-- every binding of `buildEventMap` comes from an event of the list, keyed as `correct_misalignments` does -/
-theorem buildEventMap_mem {micro : Bool} {evs : List MEvent} {q : Int × MEvent} (h : q ∈ buildEventMap micro evs) :
-    q.2 ∈ evs ∧ q.2.read ≠ undefinedRegion ∧
-      ((q.2.read.1 = absentPosition ∧ micro = true ∧ q.2.etype = corrector_micro_intron_test.1 ∧ q.1 = -q.2.read.2 - 1) ∨
-       (q.2.read.1 ≠ absentPosition ∧ q.1 = q.2.read.1)) := by
+theorem buildEventMap_mem {evs : List MEvent} {q : Int × MEvent} (h : q ∈ buildEventMap evs) :
+    q.2 ∈ evs ∧ q.2.read ≠ undefinedRegion ∧ q.2.read.1 ≠ absentPosition ∧ q.1 = q.2.read.1 := by
   rcases foldl_addEvent_mem evs [] h with h1 | h1
   · cases h1
   · exact h1
 
+/-- every binding of `buildMicroMap` comes from a `fake_micro_intron_retention` event of the list (flag on) -/
+theorem buildMicroMap_mem {micro : Bool} {evs : List MEvent} {q : Int × Int} (h : q ∈ buildMicroMap micro evs) :
+    ∃ e ∈ evs, e.read ≠ undefinedRegion ∧ e.read.1 = absentPosition ∧ micro = true ∧
+      e.etype = corrector_micro_intron_test.1 ∧ q = (e.read.2, e.iso.1) := by
+  simp only [buildMicroMap, List.mem_filterMap] at h
+  obtain ⟨e, he, hq⟩ := h
+  unfold microEntry at hq
+  split at hq
+  · cases hq
+  · rename_i hne
+    split at hq
+    · rename_i hc
+      exact ⟨e, he, hne, hc.1, hc.2.2, hc.2.1, (Option.some.inj hq).symm⟩
+    · cases hq
+
+theorem buildMicroMap_off (evs : List MEvent) : buildMicroMap false evs = [] := by
+  simp [buildMicroMap, microEntry]
+
 theorem buildEventMap_wf {n : Nat} {evs : List MEvent} (h : WellFormedRegions n evs) :
-    MapWF n (buildEventMap false evs) := by
+    MapWF n (buildEventMap evs) := by
   intro q hq
-  obtain ⟨h1, h2, h3⟩ := buildEventMap_mem hq
-  rcases h3 with ⟨_, hf, _⟩ | ⟨h4, h5⟩
-  · cases hf
-  · rcases h q.2 h1 with h6 | h6 | h6
-    · exact absurd h6 h2
-    · exact absurd h6.1 h4
-    · exact ⟨h5, by omega, by omega, h6.2.2⟩
+  obtain ⟨h1, h2, h4, h5⟩ := buildEventMap_mem hq
+  rcases h q.2 h1 with h6 | h6 | h6
+  · exact absurd h6 h2
+  · exact absurd h6.1 h4
+  · exact ⟨h5, by omega, by omega, h6.2.2⟩
 
 
 /-! ### one event: what can change -/
@@ -338,28 +339,53 @@ theorem eventStep_err {p : CParams} {rr : Iv} {ri corr : List Iv} {isoR : Iv} {i
                 · exact Or.inl (keepStep_err h)
           · exact Or.inl (keepStep_err h)
 
-theorem microStep_ok {emap : List (Int × MEvent)} {isoI : List Iv} {i : Int} {acc acc' : List Iv}
-    (h : microStep emap isoI i acc = .ok acc') :
-    acc' = acc ∨ ∃ e x, emap.lookup (-i - 1) = some e ∧ pyGet? isoI e.iso.1 = some x ∧ acc' = acc ++ [x] := by
+theorem getAll_mem {l : List Iv} {js : List Int} {xs : List Iv} (h : getAll l js = some xs) :
+    ∀ x ∈ xs, ∃ j ∈ js, pyGet? l j = some x := by
+  induction js generalizing xs with
+  | nil => simp [getAll] at h; subst h; intro x hx; cases hx
+  | cons j js ih =>
+    unfold getAll at h
+    cases hj : pyGet? l j with
+    | none => simp [hj] at h
+    | some y =>
+      cases hr : getAll l js with
+      | none => simp [hj, hr] at h
+      | some ys =>
+        simp [hj, hr] at h
+        subst h
+        intro x hx
+        cases hx with
+        | head => exact ⟨j, by simp, hj⟩
+        | tail _ hx' =>
+          obtain ⟨j', hj', hg⟩ := ih hr x hx'
+          exact ⟨j', List.mem_cons_of_mem _ hj', hg⟩
+
+theorem microStep_ok {mm : List (Int × Int)} {isoI : List Iv} {i : Int} {acc acc' : List Iv}
+    (h : microStep mm isoI i acc = .ok acc') :
+    ∃ xs, getAll isoI (microAt mm i) = some xs ∧ acc' = acc ++ xs := by
   unfold microStep at h
-  cases hl : emap.lookup (-i - 1) with
-  | none => simp [hl] at h; exact Or.inl h.symm
-  | some e =>
-    simp only [hl] at h
-    cases hx : pyGet? isoI e.iso.1 with
-    | none => simp [hx] at h
-    | some x => simp [hx] at h; exact Or.inr ⟨e, x, rfl, hx, h.symm⟩
+  cases hg : getAll isoI (microAt mm i) with
+  | none => simp [hg] at h
+  | some xs => simp [hg] at h; exact ⟨xs, rfl, h.symm⟩
+
+theorem microStep_err {mm : List (Int × Int)} {isoI : List Iv} {i : Int} {acc : List Iv} {x : CErr}
+    (h : microStep mm isoI i acc = .error x) : x = .index := by
+  unfold microStep at h
+  cases hg : getAll isoI (microAt mm i) with
+  | none => simp [hg] at h; exact h.symm
+  | some xs => simp [hg] at h
 
 /-! ### loop invariants -/
 
-theorem eventLoop_invariant (p : CParams) (emap : List (Int × MEvent)) (rr : Iv) (ri corr : List Iv) (isoR : Iv)
+theorem eventLoop_invariant (p : CParams) (emap : List (Int × MEvent)) (mm : List (Int × Int)) (rr : Iv)
+    (ri corr : List Iv) (isoR : Iv)
     (isoI : List Iv) (Inv : Iv → List Iv → Prop)
-    (hmicro : ∀ i reg acc acc', microStep emap isoI i acc = .ok acc' → Inv reg acc → Inv reg acc')
+    (hmicro : ∀ i reg acc acc', microStep mm isoI i acc = .ok acc' → Inv reg acc → Inv reg acc')
     (hplain : ∀ i c reg acc, pyGet? corr i = some c → Inv reg acc → Inv reg (acc ++ [c]))
     (hevent : ∀ i e reg acc reg' acc', emap.lookup i = some e →
       eventStep p rr ri corr isoR isoI e reg acc = .ok (reg', acc') → Inv reg acc → Inv reg' acc') :
     ∀ (fuel : Nat) (i : Int) (reg : Iv) (acc : List Iv) (reg' : Iv) (ni : List Iv), Inv reg acc →
-      eventLoop p emap rr ri corr isoR isoI fuel i reg acc = .ok (reg', ni) → Inv reg' ni := by
+      eventLoop p emap mm rr ri corr isoR isoI fuel i reg acc = .ok (reg', ni) → Inv reg' ni := by
   intro fuel
   induction fuel with
   | zero => intro i reg acc reg' ni _ h; simp [eventLoop] at h
@@ -367,7 +393,7 @@ theorem eventLoop_invariant (p : CParams) (emap : List (Int × MEvent)) (rr : Iv
     intro i reg acc reg' ni hinv h
     rw [eventLoop] at h
     split at h
-    · cases hm : microStep emap isoI i acc with
+    · cases hm : microStep mm isoI i acc with
       | error x => simp [hm] at h
       | ok acc1 =>
         simp only [hm] at h
@@ -388,17 +414,20 @@ theorem eventLoop_invariant (p : CParams) (emap : List (Int × MEvent)) (rr : Iv
             obtain ⟨r2, a2⟩ := q
             simp only [hs] at h
             exact ih _ _ _ _ _ (hevent i e reg acc1 r2 a2 hl hs hinv1) h
-    · simp at h
-      obtain ⟨h1, h2⟩ := h
-      subst h1; subst h2
-      exact hinv
+    · cases hm : microStep mm isoI (corr.length : Int) acc with
+      | error x => simp [hm] at h
+      | ok acc1 =>
+        simp [hm] at h
+        obtain ⟨h1, h2⟩ := h
+        subst h1; subst h2
+        exact hmicro _ reg acc acc1 hm hinv
 
 /-- termination: if every event found at a non-negative key ends at or after that key, the loop index strictly
     increases and `len − i + 1` units of fuel suffice -/
-theorem eventLoop_no_fuel_error (p : CParams) (emap : List (Int × MEvent)) (rr : Iv) (ri corr : List Iv) (isoR : Iv)
-    (isoI : List Iv) (hprog : ∀ k e, 0 ≤ k → emap.lookup k = some e → k ≤ e.read.2) :
+theorem eventLoop_no_fuel_error (p : CParams) (emap : List (Int × MEvent)) (mm : List (Int × Int)) (rr : Iv)
+    (ri corr : List Iv) (isoR : Iv) (isoI : List Iv) (hprog : ∀ k e, 0 ≤ k → emap.lookup k = some e → k ≤ e.read.2) :
     ∀ (fuel : Nat) (i : Int) (reg : Iv) (acc : List Iv), 0 ≤ i → ((corr.length : Int) - i).toNat + 1 ≤ fuel →
-      eventLoop p emap rr ri corr isoR isoI fuel i reg acc ≠ .error .fuel := by
+      eventLoop p emap mm rr ri corr isoR isoI fuel i reg acc ≠ .error .fuel := by
   intro fuel
   induction fuel with
   | zero => intro i reg acc _ hf; omega
@@ -407,17 +436,11 @@ theorem eventLoop_no_fuel_error (p : CParams) (emap : List (Int × MEvent)) (rr 
     rw [eventLoop]
     split
     · rename_i hlt
-      cases hm : microStep emap isoI i acc with
+      cases hm : microStep mm isoI i acc with
       | error x =>
         simp only
-        unfold microStep at hm
-        cases hl : emap.lookup (-i - 1) with
-        | none => simp [hl] at hm
-        | some e =>
-          simp only [hl] at hm
-          cases hx : pyGet? isoI e.iso.1 with
-          | none => simp [hx] at hm; subst hm; simp
-          | some x => simp [hx] at hm
+        have := microStep_err hm
+        subst this; simp
       | ok acc1 =>
         simp only
         cases hl : emap.lookup i with
@@ -440,6 +463,11 @@ theorem eventLoop_no_fuel_error (p : CParams) (emap : List (Int × MEvent)) (rr 
             obtain ⟨r2, a2⟩ := q
             simp only
             exact ih _ _ _ (by omega) (by omega)
-    · simp
+    · cases hm : microStep mm isoI (corr.length : Int) acc with
+      | error x =>
+        simp only
+        have := microStep_err hm
+        subst this; simp
+      | ok acc1 => simp
 
 end IsoVerif.Lemmas.C14
